@@ -475,4 +475,19 @@ theorem lenMems_bound (f : List Char → List Char) (g : List Char → Bool)
     omega
 end
 
+mutual
+theorem countNum_false : ∀ v : JV, countNum (fun _ => false) v = 0
+  | .lit _ => by simp [countNum]
+  | .num _ => by simp [countNum]
+  | .str _ => by simp [countNum]
+  | .arr xs => by simp [countNum, countNumElems_false xs]
+  | .obj ms => by simp [countNum, countNumMems_false ms]
+theorem countNumElems_false : ∀ xs : List JV, countNumElems (fun _ => false) xs = 0
+  | [] => by simp [countNumElems]
+  | x :: r => by simp [countNumElems, countNum_false x, countNumElems_false r]
+theorem countNumMems_false : ∀ ms : List (List Char × JV), countNumMems (fun _ => false) ms = 0
+  | [] => by simp [countNumMems]
+  | (_, x) :: r => by simp [countNumMems, countNum_false x, countNumMems_false r]
+end
+
 end Verif.Proofs.Json
